@@ -174,6 +174,12 @@ def window_faults(chk, tier, windows, tags=None, label='window-faults'):
             for k in range(K):
                 for (errno, persistent, partial) in modes:
                     jobs.append((wl_bin, pre, body, tail, k, errno, persistent, partial, '', '%s/%d' % (wname, h)))
+            if wname == 'compact-cold':
+                # every open(2) from the k-th on fails (descriptor exhaustion) while writes and syncs keep working: ALL inputs of
+                # the compaction fail before yielding an entry, so no output table is ever opened -- the one place where only the
+                # final status of the input iterator can report the error
+                for k in range(min(4, base.get('kindcount', {}).get('open', 0))):
+                    jobs.append((wl_bin, pre, body, tail, k, 24, 1, 0, 'open', '%s/%d' % (wname, h)))
     results = []
     with cf.ThreadPoolExecutor(vlib.NPROC) as ex:
         for r in ex.map(_one_fault_run, jobs):
